@@ -12,9 +12,11 @@ This module only joins the parts; it states nothing itself.
   Makefile-style dependency files, dependency-info files:        LLBuild.Props.C19Deps  — `LLBuild.MakeDeps.C19_*`,
                                                                                            `LLBuild.DepInfo.C19_*`
   Ninja manifest loader (rule-variable expansion terminates):    LLBuild.Props.C17Load  — `LLBuild.NinjaLoader.C19_loader_total`
-The build-description (YAML) loader has NO Lean model: that clause is decided by the python oracle of
-`vlib/props/c19.py` on the real loader under ASan+UBSan (shape generator), with the vendored LLVM YAML parser trusted.
+  Ninja parser (total, in-bounds lexer calls, callback discipline): LLBuild.Props.C17Parse — `LLBuild.NinjaParser.C19_*`
+The build-description loader (BuildFileImpl over the YAML node tree) is LLBuild.Props.C19Yaml — `LLBuild.BuildFileLoader.C19_yaml_*`;
+Props/C19All.lean joins it with this module (the vendored LLVM YAML text parser itself is trusted).
 -/
 import LLBuild.Props.C19Ninja
 import LLBuild.Props.C19Deps
 import LLBuild.Props.C17Load
+import LLBuild.Props.C17Parse
